@@ -5,4 +5,5 @@ f16_0:
   ret
   call f21_0
   call f7_0
+  mov wvsv0(%rip),%rax
   ret
